@@ -597,7 +597,9 @@ func checkErrorOrigin(p *Prog, l *Ledger, pi *parserInfo) {
 		good := ok && len(ws) > 0
 		for _, w := range ws {
 			if name == "utils.report" {
-				stderr := hasOp(w, "fprint", func(e *Event) bool { return strings.Contains(e.KV["dest"], "os.Stderr") && strings.Contains(strings.Join(e.Args, " "), "[line %d]") })
+				stderr := hasOp(w, "fprint", func(e *Event) bool {
+					return strings.Contains(e.KV["dest"], "os.Stderr") && strings.Contains(strings.Join(e.Args, " "), "[line %d]")
+				})
 				flag := hasOp(w, "globalstore", func(e *Event) bool { return e.Args[0] == "HadError" && e.Args[1] == "true" })
 				if !stderr || !flag {
 					good = false
